@@ -1,8 +1,8 @@
 package main
 
 import (
-	"reflect"
 	"fmt"
+	"reflect"
 	"strings"
 
 	"github.com/llir/llvm/asm"
